@@ -207,11 +207,14 @@ def rxEvents (n : Nat) : Link → List LIn → List (Option Nat × Nat)
   | _, [] => []
   | s, i :: is => (feOfDes s.rx.des s.rx.sample, i.ready) :: rxEvents n (s.step n i) is
 
-/-- the consumer keeps up: its ready is high in at least two cycles from each frame end (inclusive) to the next frame end
-    (exclusive), and after the last one.  `c` = ready cycles seen since the last frame end, saturating at 2. -/
+/-- the consumer keeps up.  `c` = ready cycles seen since the last frame end (counting the frame-end cycle itself), saturating
+    at 2: the first raises `valid`, the second is the transfer.  At every frame end the previous byte must be gone (c = 2) or be
+    taken in exactly that cycle (c = 1 and ready high: `valid` and the old value are still on the port in that cycle — the last
+    possible moment); at the end of the observation c = 2.  This is EXACT for the unchanged code: whenever it is violated a byte
+    is lost (c = 0: pending byte overwritten before it was announced; c = 1 without ready: announced byte overwritten). -/
 def keepsUp : Nat → List (Option Nat × Nat) → Bool
   | c, [] => c == 2
-  | c, (some _, r) :: es => c == 2 && keepsUp (if r ≠ 0 then 1 else 0) es
+  | c, (some _, r) :: es => (c == 2 || (c == 1 && r != 0)) && keepsUp (if r ≠ 0 then 1 else 0) es
   | c, (none, r) :: es => keepsUp (if r ≠ 0 then min 2 (c + 1) else c) es
 
 /-- the property's oracle on observed lists (after the line has drained): everything accepted was delivered,
